@@ -570,6 +570,10 @@ class Client:
         except ssl.SSLError as e:
             raise Error("SSL error: %s" % str(e))
         self.sock = nsock
+        # Whatever was received in clear after the reply to STARTTLS has
+        # not been sent under TLS protection: it must not be taken for
+        # the capabilities the server announces again once TLS is active.
+        self.__read_buffer = b""
         self.__capabilities = {}
         self.__get_capabilities()
         return True
